@@ -162,13 +162,15 @@ def launch_trace(rnd, fail_at: int | None, to_file: bool, launch_id=None, attemp
         if not to_file:
             out.mkdir()
         (d / "cfg.yaml").write_text(LAUNCH_YAML.format(trace=str(out), mode="by_position", values=values, divisors=divisors))
-        args = ["run", str(d / "cfg.yaml"), "--run-space-launch-id", launch_id or f"launch-{rnd.randrange(10**9)}"]
+        requested = launch_id or rnd.choice(["launch-{n}", "nightly sweep #{n}", "exp:2026-10-01+retry/{n}", "läuf {n}"]).format(n=rnd.randrange(10**9))
+        args = ["run", str(d / "cfg.yaml"), "--run-space-launch-id", requested]
         if attempt is not None:
             args += ["--run-space-attempt", str(attempt)]
         code, so, se = rt.cli(args, cwd=d)
         files = rt.read_trace_files(out)
     recs = [r for f in sorted(files) for r in files[f]]
-    return recs, files, {"runs": nruns, "fail_at": fail_at, "exit": code, "to_file": to_file, "stderr": se[-200:]}
+    return recs, files, {"runs": nruns, "fail_at": fail_at, "exit": code, "to_file": to_file, "stderr": se[-200:],
+                         "launch_id": requested, "attempt": attempt or 1}
 
 
 # ---------------------------------------------------------------------------------------------
@@ -274,7 +276,7 @@ def run(tier: str) -> int:
         traces.append({"kind": "launch", "records": recs, "files": files, "info": info})
     # a retried launch: two attempts under one launch id in one record set (the first cut short like a crash, or failing)
     for i in range(2 if tier == "quick" else 6):
-        lid = f"retried-{rnd.randrange(10**9)}"
+        lid = rnd.choice(["retried-{n}", "retried run #{n}"]).format(n=rnd.randrange(10**9))
         r1, f1, i1 = launch_trace(rnd, rnd.choice([None, 0, 1]), to_file=False, launch_id=lid, attempt=1)
         r2, f2, i2 = launch_trace(rnd, None, to_file=False, launch_id=lid, attempt=2)
         if rnd.random() < 0.6 and len(r1) > 3:
@@ -309,6 +311,19 @@ def run(tier: str) -> int:
             stats["prefixes"] += 1
             cases.append((f"t{ti}:prefix{k}", recs[:k], runs, launches))
             check_prefix(rep, t, recs, k, runs, launches)
+        # --- the launch the runtime was asked to run (its id is known from the command line) gets the documented verdict on the
+        #     complete trace: complete with all its runs when every run succeeded
+        if t["kind"] == "launch" and t["info"].get("launch_id") and not t["info"].get("retry"):
+            a = Agg()
+            a.ingest_many(recs)
+            v = a.finalize_launch(t["info"]["launch_id"], t["info"]["attempt"])
+            summ = v.summary or {}
+            started = t["info"]["runs"] if t["info"]["fail_at"] is None or t["info"]["fail_at"] >= t["info"]["runs"] else t["info"]["fail_at"] + 1
+            if v.status != "complete" or summ.get("runs_total") != started:
+                rep.add_violation("launch-verdict-of-requested-id",
+                                  f"the launch run as {t['info']['launch_id']!r} is reported {v.status!r} with {summ.get('runs_total')} runs "
+                                  f"({list(v.problems)}); the runtime started {started} runs and closed the launch",
+                                  {"trace": t["info"], "records": recs, "launches_known": [list(k) for k in launches]})
         # --- a tailing viewer: one aggregator, finalised after every record, must agree with a fresh one on each prefix
         for order_label, order in (("chronological", recs), ("shuffled", rnd.sample(recs, len(recs)))):
             tail = Agg()
